@@ -11,7 +11,8 @@ RULE = ('the C04 capacity boundaries (exact-fit and one-less lengths for every l
         'table; the monitor issues the paired call (boost off) itself and compares versions; also make_sequence with '
         'boost off; distinct = (version, level in matrix, requested level, boost) combinations observed')
 ASSUMPTIONS = common.ASSUME_QR
-REQUIRED = ['evaluations', 'encode_observed', 'symbols_decoded', 'paired_calls', 'boost_raised_level', 'boost_off_observed']
+REQUIRED = ['evaluations', 'encode_observed', 'symbols_decoded', 'paired_calls', 'boost_raised_level', 'boost_off_observed',
+            'sequence_symbols_boost_checked', 'sequence_symbols_boost_raised']
 TIMEOUT = {'quick': 3600, 'thorough': 21600}
 
 
@@ -68,6 +69,20 @@ def gen_cases(tier, seed):
         else:
             kw['symbol_count'] = rng.randint(1, 4)
         cases.append({'fn': 'make_sequence', 'content': content, 'kw': kw, 'tag': 'sequence'})
+    # sequences whose chunks have equal character counts but unequal bit lengths (multi-byte characters at one
+    # end), so that the symbols of one sequence are boosted to different levels
+    for _ in range(n_seq):
+        k = rng.randint(2, 5)
+        wide = ''.join(rng.choice('€☃あ漢𝄞') for _ in range(rng.randint(1, 6)))
+        narrow = ''.join(rng.choice('abcxyz12 ') for _ in range(rng.randint(1, 40)))
+        content = rng.choice([wide + narrow, narrow + wide, wide + narrow + wide])
+        kw = {'symbol_count': k}
+        if rng.random() < 0.5:
+            kw['error'] = rng.choice(['L', 'M', 'Q'])
+        if rng.random() < 0.3:
+            kw['encoding'] = 'utf-8'
+        if len(content) >= k:
+            cases.append({'fn': 'make_sequence', 'content': content, 'kw': kw, 'tag': 'sequence-uneven'})
     for _ in range(n_seq):
         parts = [gen.content_for_bits(rng.choice(['numeric', 'alphanumeric', 'byte']), rng.randint(1, 15)) for _ in range(2)]
         cases.append(common.mk(parts, tag='multi', **({'error': rng.choice(['L', 'M', 'Q'])} if rng.random() < 0.5 else {})))
@@ -95,6 +110,21 @@ def after(case, q, ex, rec):
                                                                       'where': 'make_sequence'})
             else:
                 rec.seen('seq|%s|%s|%s|%s' % (s.version, s.level, requested, case['kw'].get('boost_error')))
+            if case['kw'].get('boost_error', True) and s.parse_error is None and \
+                    s.end_of_segments <= oracle.capacity(s.version, s.level):
+                # boosting is done per symbol: the highest level of this version that still holds this
+                # symbol's own bit stream (Structured Append header included)
+                best = requested
+                for lv in oracle.levels_of(s.version):
+                    if oracle.LEVELS.index(lv) > oracle.LEVELS.index(best) and oracle.capacity(s.version, lv) >= s.end_of_segments:
+                        best = lv
+                rec.count('sequence_symbols_boost_checked')
+                if best != requested:
+                    rec.count('sequence_symbols_boost_raised')
+                if s.level != best:
+                    rec.deviation('C05', 'boost-level', {'got': s.level, 'expected': best, 'requested': requested,
+                                                         'version': s.version, 'bits': s.end_of_segments,
+                                                         'where': 'make_sequence', 'symbols': len(q)})
         return
     last = monitors.State.last
     s = last[3] if last else None
